@@ -55,6 +55,9 @@ Definition a_sort (cmd : string) (key : bytes) (s : sort_args) : result (list to
   else if nonempty order then Panic
   else Ok (pre ++ alpha).
 
+(** strconv.FormatInt(int64(cursor), 10): a uint64 cursor with the top bit set prints as a negative number *)
+Definition a_cursor (cursor : N) : tok := D (print_Z (int64_of_uint64 cursor)).
+
 Definition a_scan_tail (mtch : bytes) (count : Z) : list tok :=
   (if nonempty mtch then [KW "MATCH"; D mtch] else []) ++
   (if 0 <? count then [KW "COUNT"; zi count] else []).
@@ -147,8 +150,7 @@ Definition adapter (c : call) : result (list tok) :=
     else if exp =? -1 then Ok [KW "SET"; D key; a_str v; KW "XX"; KW "KEEPTTL"]
     else Ok [KW "SET"; D key; a_str v; KW "XX"]
   | MGetEx key exp =>
-    Ok ([KW "GETEX"; D key] ++
-        (if 0 <? exp then a_expiry exp else if exp =? 0 then [KW "PERSIST"] else []))
+    Ok ([KW "GETEX"; D key] ++ (if 0 <? exp then a_expiry exp else []))
   | MExpire m key d =>
     Ok ([KW "EXPIRE"; D key; zi (a_format_sec d)] ++
         match m with EmNone => [] | EmNX => [KW "NX"] | EmXX => [KW "XX"] | EmGT => [KW "GT"] | EmLT => [KW "LT"] end)
@@ -184,12 +186,12 @@ Definition adapter (c : call) : result (list tok) :=
     | Ok l => Ok (l ++ [KW "STORE"; D store])
     | r => r
     end
-  | MScan cursor mtch count => Ok ([KW "SCAN"; D (print_N cursor)] ++ a_scan_tail mtch count)
+  | MScan cursor mtch count => Ok ([KW "SCAN"; a_cursor cursor] ++ a_scan_tail mtch count)
   | MScanType cursor mtch count typ =>
-    Ok ([KW "SCAN"; D (print_N cursor)] ++ a_scan_tail mtch count ++ (if nonempty typ then [KW "TYPE"; D typ] else []))
+    Ok ([KW "SCAN"; a_cursor cursor] ++ a_scan_tail mtch count ++ (if nonempty typ then [KW "TYPE"; D typ] else []))
   | MKScan w key cursor mtch count =>
     Ok ([KW (match w with KSScan => "SSCAN" | KHScan | KHScanNoValues => "HSCAN" | KZScan => "ZSCAN" end); D key;
-         D (print_N cursor)] ++ a_scan_tail mtch count ++
+         a_cursor cursor] ++ a_scan_tail mtch count ++
         (match w with KHScanNoValues => [KW "NOVALUES"] | _ => [] end))
   | MMemoryUsage key samples =>
     match samples with
@@ -297,7 +299,7 @@ Definition adapter (c : call) : result (list tok) :=
   | MFunctionLoad replace code =>
     Ok ([KW "FUNCTION"; KW "LOAD"] ++ (if replace then [KW "REPLACE"] else []) ++ [D code])
   | MClientKillByFilter keys => Ok ([KW "CLIENT"; KW "KILL"] ++ map D keys)
-  | MACLLog count => Ok ([KW "ACL"; KW "LOG"] ++ (if 0 <? count then [zi count] else []))
+  | MACLLog count => Ok [KW "ACL"; KW "LOG"; zi count]
   end.
 
 (** ---------- correspondence cases (printed by harness/cmd/obs_compatargs) ---------- *)
